@@ -150,7 +150,13 @@ def list_method(ex, l, f, node, st):
         v = args[0]
         if v.py == "emptylist":
             v = list_empty(l.kind.elem.elem)
-        nl, sc = list_append(l, v)
+        try:
+            nl, sc = list_append(l, v)
+        except OutOfSubset:
+            # a value of an unrelated kind (an object into a list of floats): this statement must be unreachable
+            ex.check(st, "store-kind-unreachable", FALSE, node)
+            st.pc = FALSE
+            return vnone()
         ex.check(st, "store-kind", sc, node)
         ex.assign(f.value, nl, st, node)
         return vnone()
@@ -180,12 +186,9 @@ def list_method(ex, l, f, node, st):
 
 
 def dict_delete(ex, d, key, st, node):
-    k, _ = coerce(key, d.kind.k)
-    ex.check(st, "KeyError", z3.Select(d.terms[0], k.terms[0]), node)
-    nv = len(flat(d.kind.v))
-    # the order list is left as is except that the key is no longer in the domain; iteration
-    # filters by domain (see loops.py).
-    return Val(d.kind, [z3.Store(d.terms[0], k.terms[0], FALSE)] + list(d.terms[1:]))
+    from . import dicts
+    ex.check(st, "KeyError", dicts.contains(d, key), node)
+    return dicts.delete(d, key)
 
 
 def dict_method(ex, d, f, node, st):
@@ -194,6 +197,8 @@ def dict_method(ex, d, f, node, st):
         return Val(d.kind, d.terms, py="dictkeys")
     if name == "items":
         return Val(d.kind, d.terms, py="dictitems")
+    if name == "copy":
+        return Val(d.kind, d.terms)
     raise OutOfSubset("dict method " + name)
 
 
@@ -230,7 +235,8 @@ def call_builtin(ex, name, node, st):
         if isinstance(v.kind, KList):
             return vint(list_len(v))
         if isinstance(v.kind, KDict):
-            raise OutOfSubset("len(dict)")
+            from . import dicts
+            return vint(dicts.D(v).size)
         if isinstance(v.kind, KTuple):
             return vint(len(v.kind.elems))
         if isinstance(v.kind, KRef):
@@ -327,7 +333,7 @@ def call_builtin(ex, name, node, st):
         if args and isinstance(args[0].kind, KList):
             return args[0]
         if args and isinstance(args[0].kind, KDict):
-            return dict_keys_list(args[0])
+            return dict_keys_list(ex, st, args[0])
     if name == "exit":
         ex.raise_exc(st, "SystemExit", node)
         st.pc = FALSE
@@ -337,10 +343,30 @@ def call_builtin(ex, name, node, st):
     raise OutOfSubset("%s: call to %s (line %s) has no model" % (ex.fi.qual, name, node.lineno))
 
 
-def dict_keys_list(d):
-    """Insertion-ordered key list (only sound while no key was deleted since creation)."""
-    nv = len(flat(d.kind.v))
-    return Val(KList(d.kind.k), [d.terms[1 + nv], d.terms[2 + nv]])
+def dict_keys_list(ex, st, d):
+    """list(d) / list(d.keys()): the live keys in insertion order.  Modelled as a fresh list L with a fresh
+    ranking  rank : K -> Int  that is a bijection between the domain and [0, size) and is monotone in the
+    insertion position (trusted model of the built-in)."""
+    from . import dicts
+    x = dicts.D(d)
+    ks = flat(d.kind.k)[0]
+    L = fresh(KList(d.kind.k), "keys")
+    rank = z3.Const(uid("rank"), z3.ArraySort(ks, z3.IntSort()))
+    k, k2, i = z3.Const(uid("kk"), ks), z3.Const(uid("kk"), ks), z3.Int(uid("ki"))
+    n = L.terms[0]
+    arr = L.terms[1]
+    ex.ctx.add_hyp(n == x.size)
+    ex.ctx.add_hyp(z3.ForAll([k], implies(z3.Select(x.dom, k), and_(z3.Select(rank, k) >= 0, z3.Select(rank, k) < n,
+                                                                   z3.Select(arr, z3.Select(rank, k)) == k)),
+                             patterns=[z3.Select(rank, k)]))
+    ex.ctx.add_hyp(z3.ForAll([i], implies(and_(i >= 0, i < n), and_(z3.Select(x.dom, z3.Select(arr, i)),
+                                                                  z3.Select(rank, z3.Select(arr, i)) == i)),
+                             patterns=[z3.Select(arr, i)]))
+    ex.ctx.add_hyp(z3.ForAll([k, k2], implies(and_(z3.Select(x.dom, k), z3.Select(x.dom, k2),
+                                                   z3.Select(x.pos, k) < z3.Select(x.pos, k2)),
+                                              z3.Select(rank, k) < z3.Select(rank, k2)),
+                             patterns=[z3.MultiPattern(z3.Select(rank, k), z3.Select(rank, k2))]))
+    return L
 
 
 def isinstance_(ex, v, tnode):
